@@ -14,7 +14,7 @@ def distance_to_similarity(D, r=None, a=None, method='exponential', return_param
       r is max(D) if not given
     - Reciprocal: 1 / (r + D*a)
       r is 1 if not given
-    - Reverse: r - D
+    - Reverse: (r - D) / r
       r is min(D) + max(D) if not given
 
     All of these methods are monotonically decreasing transformations. The order of the
@@ -136,7 +136,7 @@ def squash(X, r=None, base=None, x0=None, method="logistic", return_params=False
         else:
             result = 1 - np.power(base, -np.power(X - x0, 2) / r**2)
             Xz = 1 - np.power(base, -np.power(0 - x0, 2) / r**2)
-    if method == "exponential":
+    elif method == "exponential":
         x0 = 0  # not supported for exponential
         if r is None:
             if cover_quantile is False:
